@@ -32,6 +32,7 @@ def run(ck):
         return
     T = bindings.Tables(tab)
     c01.glue_facts(ck)
+    c01.runtime_obligations(ck, tab)
     if tab["errors"]:
         c01.directed_by_errors(ck, T, tab["errors"], prop="C04")
     if c01.wf_obligations(ck, T, prop="C04"):
